@@ -99,10 +99,15 @@ def impl(case):
     X, y, kw = K.data_kwargs(case)
     n = len(y)
     m = K.make_moment(case)
+    pre = K.preload_flag(case)
+    if pre:
+        K.decoy_load(m, X, y, kw)
     m.load_data(X, y, **kw)
     mk_obj = (lambda: red.ErrorRate()) if case["fp"] is None else \
         (lambda: red.ErrorRate(costs={"fp": float(F(case["fp"])), "fn": float(F(case["fn"]))}))
     obj = mk_obj()
+    if pre:
+        K.decoy_load(obj, X, y, kw)
     obj.load_data(X, y, **kw)
     index = K.canon_index(m)
     nidx = len(index)
